@@ -177,12 +177,10 @@ def x12n_document(param, src_file, fd_997, fd_html,
                                  (icvn, fic, vriic, tspc))
                     map_file_new = map_index_if.get_filename(icvn, vriic, fic, tspc)
                     logger.debug('New map file: %s' % (map_file_new))
-                    if map_file != map_file_new:
+                    # a BHT02 that selects no map is a bad value of this element, reported as
+                    # such by the map in use: the transaction type does have a map
+                    if map_file_new is not None and map_file != map_file_new:
                         map_file = map_file_new
-                        if map_file is None:
-                            err_str = "Map not found.  icvn={}, fic={}, vriic={}, tspc={}".format(
-                                        icvn, fic, vriic, tspc)
-                            raise pyx12.errors.EngineError(err_str)
                         cur_map = pyx12.map_if.load_map_file(map_file, param, map_path)
                         src.check_837_lx = True if cur_map.id.startswith('837') else False
                         logger.debug('Map file: %s' % (map_file))
